@@ -26,6 +26,7 @@ def degenerate_e2e(rng, cid):
 
 
 def run(ctx):
+    gen.INTEGRAL[0] = True          # real-typed weights are integer-valued here: how fractional weights are rounded is C08's subject
     ctx.trusted = ['Coq 8.16.1 kernel; structural theorems (labels, shape, zero rows) for every arithmetic: closed under the global context; non-negativity and "every division / logarithm sits under a guard making its argument > 1e-6" over exact reals: standard real-number axioms',
                    'correspondence K-GRAPH, K-INIT, K-UPD, K-LIK, K-E2E vs the extracted float model, bit for bit (a NaN or infinity produced by either side would be compared as such)',
                    'NOT verified: overflow to +-inf in binary64 -- no magnitude bound is proved; finiteness of the implementation\'s outputs is asserted on every case as a test only']
@@ -38,9 +39,9 @@ def run(ctx):
         line, m = degenerate_e2e(rng.fork('d%d' % k), k)
         cases.append(line)
         metas[k] = m
-    res = ctx.component('K-E2E(status, labels, start states)', cases, keys={'status', 'labels', 'start'})
+    res = ctx.component('K-E2E(status, labels, start states)', cases, keys={'status', 'labels', 'start:u', 'start:v'})
     graphs = [gen.gen_graph_random(rng.fork('g%d' % k), 500000 + k)[0] for k in range(ctx.budget(200, 3000))]
-    ctx.component('K-GRAPH', graphs)
+    ctx.component('K-GRAPH(labels)', graphs, keys={'dims', 'labels', 'nv'})
     n_eval = 0
     keys = set()
     if res:
